@@ -154,10 +154,23 @@ def build():
     one(r"if\s+rrsig\.type_covered\(\)\s*!=\s*rtype\b", cs, "check_sig type covered")
     m = one(r"if\s+labels\s*%s\s*rrsig\.labels\(\)\s+as\s+usize\s*\{\s*return\s+false;" % OP, cs, "check_sig labels")
     defs.append(("sig_labels_reject_op", "N", opc(m.group(1))))
-    m = one(r"if\s+ts_now\.(canonical_gt|canonical_ge|gt|ge)\(&rrsig\.expiration\(\)\)\s*\|\|\s*ts_now\.(canonical_lt|canonical_le|lt|le)\(&rrsig\.inception\(\)\)\s*\{\s*return\s+false;", cs, "check_sig times")
-    defs.append(("sig_time_is_canonical", "bool", "true" if m.group(1).startswith("canonical") and m.group(2).startswith("canonical") else "false"))
-    defs.append(("sig_expired_op", "N", opc(">" if m.group(1).endswith("gt") else ">=")))
-    defs.append(("sig_early_op", "N", opc("<" if m.group(2).endswith("lt") else "<=")))
+    # signature times: either Timestamp::canonical_* (plain u32 order) or the serial comparison
+    # (PartialOrd of Timestamp = RFC 1982) in the shape `!(ts_now <= expiration && ts_now >= inception)`:
+    # an incomparable pair (2^31 apart) makes `<=` / `>=` false, so the signature is rejected
+    plain = list(re.finditer(r"if\s+ts_now\.(canonical_gt|canonical_ge)\(&rrsig\.expiration\(\)\)\s*\|\|\s*ts_now\.(canonical_lt|canonical_le)\(&rrsig\.inception\(\)\)\s*\{\s*return\s+false;", cs))
+    serial = list(re.finditer(r"if\s+!\(\s*ts_now\s*<=\s*rrsig\.expiration\(\)\s*&&\s*ts_now\s*>=\s*rrsig\.inception\(\)\s*\)\s*\{\s*return\s+false;", cs))
+    if len(plain) + len(serial) != 1:
+        raise GenError("check_sig times: shape not recognised (plain %d, serial %d)" % (len(plain), len(serial)))
+    if plain:
+        m = plain[0]
+        defs.append(("sig_time_is_canonical", "bool", "true"))
+        defs.append(("sig_expired_op", "N", opc(">" if m.group(1).endswith("gt") else ">=")))
+        defs.append(("sig_early_op", "N", opc("<" if m.group(2).endswith("lt") else "<=")))
+    else:
+        defs.append(("sig_time_is_canonical", "bool", "false"))
+        defs.append(("sig_expired_op", "N", opc(">")))
+        defs.append(("sig_early_op", "N", opc("<")))
+        one(r"^\s*self\.0\.partial_cmp\(\s*&other\.0\s*\)\s*$", fn_body(strip_comments(read("src/rdata/dnssec.rs")), "partial_cmp", after="PartialOrd for Timestamp"), "Timestamp::partial_cmp is Serial::partial_cmp")
     one(r"if\s+signer_name\s*!=\s*key_name\s*\|\|\s*rrsig\.algorithm\(\)\s*!=\s*key\.algorithm\(\)\s*\|\|\s*rrsig\.key_tag\(\)\s*!=\s*key_tag", cs, "check_sig key match")
     one(r"if\s+!key\.is_zone_key\(\)", cs, "check_sig zone key flag")
     defs.append(("check_sig_checks_ok", "bool", "true"))
